@@ -2,6 +2,6 @@ SPECIFICATION Spec
 CONSTANTS
   Callers = {"r", "w", "x"}
   MaxEnters = 2
-  Deviations = {"mode_from_flag"}
+  Deviations = {"restore_asserts"}
 INVARIANTS CallersModeRespected NonblockNeverWaits ModeRestoredWhenQuiet NeverAsksBlocking NoAbort
 CHECK_DEADLOCK FALSE
